@@ -31,4 +31,6 @@ def handleTc : List String → String
     | _, _ => "bad-op"
   | _ => "bad-op"
 
+def C09.handlers : List (String × (List String → String)) := [("tc", handleTc)]
+
 end Driver
